@@ -222,6 +222,13 @@ class Process(object):
                     # TIMEOUT, CHECK FOR LIVELINESS
                     pass
 
+        if self.service.returncode is None:
+            # A READER THAT SEES END-OF-FILE ENDS THE LOOP BEFORE THE PROCESS IS REAPED: GIVE IT A MOMENT TO REPORT ITS STATUS
+            try:
+                self.service.wait(timeout=self.monitor_period)
+            except Exception:
+                pass
+
         (stdin_thread, stdout_thread, stderr_thread, _), self.children = self.children, ()
 
         # stdout can lock up in windows, so do not wait too long
